@@ -21,6 +21,10 @@ CONF = {
     "id": "C16", "family": "Disruption",
     "mc": [
         {"module": "MC_Caps", "cfg": "MC_Caps_atomic.cfg", "timeout": 900},
+        # arbitration half (first sentence of the statement)
+        {"module": "MC_Arbitration", "cfg": {"quick": "MC_Arbitration_quick.cfg", "thorough": "MC_Arbitration_thorough.cfg"},
+         "timeout": {"quick": 600, "thorough": 1500}},
+        {"module": "MC_Arbitration", "cfg": {"thorough": "MC_Arbitration_wide.cfg"}, "timeout": 1500},
     ],
     "gen": [
         {"module": "Gen_Caps", "cfg": {"quick": "Gen_Caps_quick.cfg", "thorough": "Gen_Caps_thorough.cfg"}, "timeout": 900,
@@ -29,8 +33,23 @@ CONF = {
     "go": [
         {"pkg": "pkg/descheduler/evictions", "test": "TestVerifC16PodEvictor", "trace": {"module": "EvictionCapsTrace", "cfg": "Trace_Caps.cfg"}},
         {"pkg": "pkg/descheduler/framework/runtime", "test": "TestVerifC16Proxy", "trace": {"module": "EvictionCapsTrace", "cfg": "Trace_Caps.cfg"}},
+        {"pkg": "pkg/descheduler/controllers/migration/arbitrator", "test": "TestVerifC16Arbitration", "uses_script": False,
+         "trace": {"module": "ArbitrationTrace", "cfg": "Trace_Arbitration.cfg"}},
     ],
     "trace": {"module": "EvictionCapsTrace", "cfg": "Trace_Caps.cfg"},
     "signature": sig,
-    "assumptions": [],
+    "assumptions": [
+        "arbitration: running-or-passed jobs are counted as jobs whose phase is Running, or Pending with the "
+        "passed-arbitration annotation, read back from the fake API server after each round; a maximum of nil / <= 0 "
+        "(per node, per namespace, globally), an unset per-workload value, or a limit whose eviction gate is skipped "
+        "counts as not configured; percentages are only used where they divide the replicas exactly",
+        "arbitration: generated histories keep to the property's quantifier - pods are not deleted while they have "
+        "jobs, a job is only created for a pod without a live job (the situation Arbitrator.Filter guards), no "
+        "evict-annotation override, no API faults, distinct job creation timestamps (the order of ties depends on "
+        "Go map iteration); reasons other than headroom for failing a job are modelled as: pod not evictable "
+        "(max eviction cost) or the documented expected-replicas rule",
+        "arbitration: controller finder and API server are fakes (controller-runtime fake client with the real "
+        "field indexes); the filter functions are assembled by the real initFilters, the jobs reach the arbitrator "
+        "through the real event handler",
+    ],
 }
